@@ -39,11 +39,12 @@ class H5Group:
 
     @property
     def group(self):
-        if self._group is None:
-            if self.name in self._parent:
-                self._group = self._parent[self.name]
-            else:
-                return None
+        # follow what is linked under this name now: the group may have been
+        # removed (an emptied link container is pruned) and created again
+        # through another handle; the remembered h5py object would then be the
+        # unlinked old one. (The handle of a deleted entity keeps its object.)
+        if self.name in self._parent:
+            self._group = self._parent[self.name]
         return self._group
 
     @group.setter
